@@ -1,6 +1,7 @@
 package c11
 
 import (
+	"Havoc/pkg/packager"
 	"errors"
 	"fmt"
 	"math/rand"
@@ -40,6 +41,24 @@ func (w *world) opChat(by int, oneShot bool) error {
 	}
 	if !waitTok(c, tok, syncWait) {
 		return &syncErr{"chat " + tok + " not echoed to its sender"}
+	}
+	return nil
+}
+
+// opDatedEvent records and broadcasts an event through the server API whose time stamp lies
+// far from the others (the text "DD/MM/YYYY hh:mm:ss" of another month or year, as after a
+// month's end or a clock step): its place in the retained log is where it was recorded.
+func (w *world) opDatedEvent(stamp string) error {
+	tok := w.token()
+	w.m.retained(tok, "api:dated")
+	pk := packager.Package{
+		Head: packager.Head{Event: opclient.EvChat, User: "c11-api", Time: stamp},
+		Body: packager.Body{SubEvent: opclient.ChatNewMessage, Info: map[string]any{"User": "c11-api", "Message": "dated " + tok}},
+	}
+	w.ts.EventAppend(pk)
+	w.ts.EventBroadcast("", pk)
+	if !waitTok(w.mons[0], tok, syncWait) {
+		return &syncErr{"dated event " + tok + " not broadcast"}
 	}
 	return nil
 }
@@ -252,9 +271,12 @@ func (w *world) history(rng *rand.Rand, n int, counts map[string]int) error {
 				liveAgs = append(liveAgs, a)
 			}
 		}
-		var presentAPI, presentAny []string
+		var presentAPI, presentAny, removedAPI []string
 		for _, n := range w.m.lstOrd {
 			li := w.m.lst[n]
+			if li.Removed && !li.ViaOperator {
+				removedAPI = append(removedAPI, n)
+			}
 			if li.Removed || n == w.http.Config.Name {
 				continue
 			}
@@ -296,18 +318,25 @@ func (w *world) history(rng *rand.Rand, n int, counts map[string]int) error {
 		case r < 87 && len(presentAny) > 0:
 			kind = "listener-remove"
 			err = w.opListenerRemove(presentAny[rng.Intn(len(presentAny))], by)
-		case r < 90 && len(presentAPI) > 0:
+		case r < 89 && len(presentAPI) > 0:
 			kind = "listener-error"
 			err = w.opListenerError(presentAPI[rng.Intn(len(presentAPI))])
+		case r < 90 && len(removedAPI) > 0:
+			// a failure reported for a listener that has no announcement in the log (any more)
+			kind = "listener-error-without-announcement"
+			err = w.opListenerError(removedAPI[rng.Intn(len(removedAPI))])
 		case r < 94 && len(liveAgs) > 1:
 			kind = "mark-dead"
 			err = w.opMark(by, liveAgs[rng.Intn(len(liveAgs))], true)
 		case r < 96 && len(deadAgs) > 0:
 			kind = "mark-alive"
 			err = w.opMark(by, deadAgs[rng.Intn(len(deadAgs))], false)
-		case r < 100:
+		case r < 98:
 			kind = "visitor"
 			err = w.opVisitor()
+		case r < 100:
+			kind = "event-with-distant-time-stamp"
+			err = w.opDatedEvent([]string{"31/12/2020 23:59:59", "01/01/2031 00:00:01", "02/11/2026 08:00:00", "30/09/2026 23:59:58"}[rng.Intn(4)])
 		}
 		if kind == "" {
 			kind = "chat"
